@@ -96,12 +96,15 @@ class Environment:
             Use the operators ``|`` ("any"), ``&`` ("all") or ``~`` ("not") to
             combine events, as in ``flag1 & flag2 | ~flag3``.
     """
-    __slots__ = '_initial_time', '_startup', '_loop', '_scope', 'active_process'
+    __slots__ = (
+        '_initial_time', '_startup', '_loop', '_scope', 'active_process', '_final_time'
+    )
 
     def __init__(self, initial_time=0):
         self._initial_time = initial_time
         self._startup = []  # type: List[Tuple[Coroutine, float]]
         self._loop = None  # type: Optional[AbstractLoop]
+        self._final_time = None  # type: Optional[float]
         self._scope = EnvironmentScope()
         #: The currently active process
         self.active_process = None  # type: Optional[Process]
@@ -138,6 +141,16 @@ class Environment:
         except StopSimulation:
             pass
 
+    async def _run_until(self, until):
+        """Run :py:meth:`~.until` as the root of a simulation of its own"""
+        try:
+            await self.until(until)
+        finally:
+            # the loop still drains stale wake-ups of later dates afterwards:
+            # the time of this environment ends here
+            if self._loop is not None:
+                self._final_time = self._loop.time
+
     def run(
         self, until: 'Union[None, float, Event[V]]' = None
     ) -> Union[None, V, Exception]:
@@ -157,7 +170,7 @@ class Environment:
             The sub-simulation lasts until simulation time equals ``until``.
         """
         if not __USIM_STATE__.is_active:
-            usim_run(self.until(until))
+            usim_run(self._run_until(until))
             if isinstance(until, Event):
                 if until.triggered:
                     return until.value
@@ -202,6 +215,8 @@ class Environment:
         """
         if self._loop is None:
             return self._initial_time
+        if self._final_time is not None:
+            return self._final_time
         return self._loop.time
 
     def schedule(self, event: 'Union[Event, Coroutine]', priority=1, delay=0):
